@@ -683,6 +683,7 @@ var helperPool = []string{
 	"var helperVar = map[string]int{\"a\": 1}",
 	"const helperConst = \"c { }\"",
 	"func (h helperType2) Method() string {\n\treturn \"m\"\n}\n\ntype helperType2 struct{}",
+	"func (h helperType3) Alpha() string {\n\treturn \"same name as a resolver method\"\n}\n\ntype helperType3 struct{}",
 }
 
 var hostileHelpers = []string{
@@ -703,13 +704,34 @@ func methodsOf(m SchemaModel) []string {
 var fieldNames = []string{"alpha", "beta", "gamma", "delta", "epsilon", "zeta", "eta", "theta", "iota", "kappa"}
 var fieldTypes = []string{"String", "Int!", "[String!]", "Boolean", "Thing", "[Thing!]!"}
 
-func evolve(t *rapid.T, m SchemaModel) (SchemaModel, string) {
+// evolve draws one schema evolution. preferred lists "Type.field" of resolvers the user has edited:
+// removals and renames pick among them most of the time (that is where user code can be lost).
+func evolve(t *rapid.T, m SchemaModel, preferred []string) (SchemaModel, string) {
 	cp := SchemaModel{}
 	for _, ty := range m.Types {
 		cp.Types = append(cp.Types, Type{Name: ty.Name, Fields: append([]Field(nil), ty.Fields...)})
 	}
 	op := rapid.SampledFrom([]string{"add-field", "add-field", "remove-field", "rename-field", "move-field", "add-type", "remove-type"}).Draw(t, "op")
 	ti := rapid.IntRange(0, len(cp.Types)-1).Draw(t, "type")
+	prefField := -1
+	if (op == "remove-field" || op == "rename-field" || op == "move-field") && len(preferred) > 0 && rapid.IntRange(0, 3).Draw(t, "preferred?") != 0 {
+		pf := strings.SplitN(preferred[rapid.IntRange(0, len(preferred)-1).Draw(t, "preferred")], ".", 2)
+		for i, ty := range cp.Types {
+			if ty.Name == pf[0] {
+				for k, f := range ty.Fields {
+					if f.Name == pf[1] {
+						ti, prefField = i, k
+					}
+				}
+			}
+		}
+	}
+	pickField := func() int {
+		if prefField >= 0 {
+			return prefField
+		}
+		return rapid.IntRange(0, len(cp.Types[ti].Fields)-1).Draw(t, "which")
+	}
 	used := func(ty Type, n string) bool {
 		for _, f := range ty.Fields {
 			if f.Name == n {
@@ -731,16 +753,16 @@ func evolve(t *rapid.T, m SchemaModel) (SchemaModel, string) {
 		cp.Types[ti].Fields = append(cp.Types[ti].Fields, Field{Name: fresh(cp.Types[ti]), Type: rapid.SampledFrom(fieldTypes).Draw(t, "ftype"), Args: rapid.SampledFrom([]string{"", "", "(n: Int)"}).Draw(t, "fargs")})
 	case "remove-field":
 		if len(cp.Types[ti].Fields) > 1 {
-			k := rapid.IntRange(0, len(cp.Types[ti].Fields)-1).Draw(t, "which")
+			k := pickField()
 			cp.Types[ti].Fields = append(cp.Types[ti].Fields[:k], cp.Types[ti].Fields[k+1:]...)
 		} else {
 			op = "noop"
 		}
 	case "rename-field":
-		k := rapid.IntRange(0, len(cp.Types[ti].Fields)-1).Draw(t, "which")
+		k := pickField()
 		cp.Types[ti].Fields[k].Name = fresh(cp.Types[ti])
 	case "move-field":
-		k := rapid.IntRange(0, len(cp.Types[ti].Fields)-1).Draw(t, "which")
+		k := pickField()
 		cp.Types[ti].Fields[k].File = 1 - cp.Types[ti].Fields[k].File
 	case "add-type":
 		name := fmt.Sprintf("Extra%d", len(cp.Types))
@@ -769,11 +791,12 @@ func gen(t *rapid.T) Case {
 	c := Case{Layout: rapid.SampledFrom([]string{"follow-schema", "follow-schema", "single-file"}).Draw(t, "layout")}
 	c.Schema = SchemaModel{Types: []Type{
 		{Name: "Query", Fields: []Field{{Name: "alpha", Type: "String"}, {Name: "thing", Type: "Thing", Args: "(id: ID!)"}, {Name: "beta", Type: "[Thing!]!", File: 1}}},
-		{Name: "Thing", Fields: []Field{{Name: "gamma", Type: "String"}, {Name: "delta", Type: "Int!", File: 1}}},
+		{Name: "Thing", Fields: []Field{{Name: "alpha", Type: "String"}, {Name: "gamma", Type: "String"}, {Name: "delta", Type: "Int!", File: 1}, {Name: "beta", Type: "Int"}}},
 	}}
 	cur := c.Schema
-	nsteps := rapid.IntRange(2, 5).Draw(t, "nsteps")
+	nsteps := rapid.IntRange(2, 6).Draw(t, "nsteps")
 	n := 0
+	var editedFields []string
 	hostile := rapid.IntRange(0, 5).Draw(t, "hostile") == 0
 	for i := 0; i < nsteps; i++ {
 		kind := rapid.SampledFrom([]string{"edit", "edit", "evolve", "regenerate"}).Draw(t, "kind")
@@ -794,6 +817,9 @@ func gen(t *rapid.T) Case {
 					e.Results = []string{"res", "err"}
 				}
 				st.Edits = append(st.Edits, e)
+				// "queryResolver.Alpha" -> "Query.alpha"
+				mp := strings.SplitN(m, ".", 2)
+				editedFields = append(editedFields, ucFirst(strings.TrimSuffix(mp[0], "Resolver"))+"."+lcFirst(mp[1]))
 			}
 			if rapid.IntRange(0, 2).Draw(t, "helper") == 0 {
 				pool := helperPool
@@ -804,7 +830,7 @@ func gen(t *rapid.T) Case {
 			}
 			c.Steps = append(c.Steps, st)
 		case "evolve":
-			nm, op := evolve(t, cur)
+			nm, op := evolve(t, cur, editedFields)
 			if op == "noop" {
 				continue
 			}
@@ -831,5 +857,5 @@ func gen(t *rapid.T) Case {
 }
 
 func TestRegeneration(t *testing.T) {
-	vfrun.Run(t, vfrun.Prop[Case]{Property: "C19", Name: "TestRegeneration", Gen: gen, Check: check}, vfrun.N(64, 800))
+	vfrun.Run(t, vfrun.Prop[Case]{Property: "C19", Name: "TestRegeneration", Gen: gen, Check: check}, vfrun.N(64, 900))
 }
